@@ -34,6 +34,7 @@ type Contract struct {
 	IsExtern bool
 	IsFType  bool
 	IsIface  bool
+	Parent   *Contract // loop/closure contracts: the function's own contract
 }
 
 func (c *Contract) clauses(kind string) []*Clause {
@@ -83,7 +84,7 @@ type Specs struct {
 }
 
 var clauseKw = map[string]bool{"requires": true, "ensures": true, "modifies": true, "invariant": true,
-	"decreases": true, "ghost": true, "property": true, "attr": true, "assume": true, "havoc": true}
+	"decreases": true, "ghost": true, "property": true, "attr": true, "assume": true, "havoc": true, "axiom": true}
 
 var headRe = regexp.MustCompile(`^(func|functype|iface|extern|pred|fn|ghost|inlinepkg|opaque|modset|globalinv)\b`)
 
